@@ -266,14 +266,24 @@ func checkMassiveFromRoot(r *evid.Run, pool *wproto.Pool, d *DocState, c *tok.Co
 	}
 	rec(d.Forest[0], 1)
 	br := []string{c.LD, c.LI, c.MD, c.MI}
-	for _, route := range []string{"root-text", "root-json", "root-dryrun", "root-walk"} {
+	plain := items
+	for _, route := range []string{"root-text", "root-json", "root-dryrun", "root-walk", "root-dryrun-hostile", "root-text-hostile"} {
+		items := plain
+		if strings.HasSuffix(route, "-hostile") {
+			// the same tree with a name that is not a path element in its last node: dry run rejects it, plain output draws it
+			if len(plain) < 2 {
+				continue
+			}
+			items = append([]wproto.Item{}, plain...)
+			items[len(items)-1].N += "/x"
+		}
 		rq := wproto.Req{Route: "root", Items: items, Branches: br, Alias: d.N%3 == 0}
 		switch route {
-		case "root-text":
+		case "root-text", "root-text-hostile":
 			rq.Op = "output"
 		case "root-json":
 			rq.Op, rq.Format, rq.Branches = "output", "json", nil
-		case "root-dryrun":
+		case "root-dryrun", "root-dryrun-hostile":
 			rq.Op, rq.DryRun, rq.Exts = "output", true, []string{c.Seq([]string{"b"})}
 		case "root-walk":
 			rq.Op = "walk"
